@@ -1,8 +1,102 @@
 /-
-C06 — property theorems (stub; see DESIGN.md §6).
+C06 — Result depends only on hyper-parameters and the ordered sample stream.
+
+In the model every `partial_fit` is a left fold of the training step over its
+batch and `fit` is "forget, then fold"; the content of these theorems is that
+*any* partition of a stream gives the same state, that a re-fit equals a fresh
+fit, and that read-only operations are the identity on the state.  That the
+implementation *is* such a fold is what the correspondence checks.
 -/
-import ArtModel.Basic
+import ArtProofs.Map
 
 namespace Art.C06
+
+variable {X Wt α μ θ : Type} [LinearOrder α]
+
+/-- Any partition of the stream into `partial_fit` batches equals one batch. -/
+theorem batching_irrelevant (K : Kernel X Wt α μ) (cfg : SearchCfg μ θ) (th0 : θ)
+    (veto : ArtState Wt → X → Nat → Bool) (s : ArtState Wt) (batches : List (List X)) :
+    batches.foldl (partialFit K cfg th0 veto) s = partialFit K cfg th0 veto s batches.flatten :=
+  partialFit_flatten K cfg th0 veto s batches
+
+/-- `fit` equals `partial_fit` batches on a fresh estimator, whatever the partition. -/
+theorem fit_eq_partial_fits_fresh (K : Kernel X Wt α μ) (cfg : SearchCfg μ θ) (th0 : θ)
+    (veto : ArtState Wt → X → Nat → Bool) (s : ArtState Wt) (batches : List (List X)) :
+    batches.foldl (partialFit K cfg th0 veto) {} = fit K cfg th0 veto s batches.flatten := by
+  rw [partialFit_flatten]; rfl
+
+/-- `fit` on a previously used estimator equals `fit` on a fresh one. -/
+theorem refit_eq_fresh (K : Kernel X Wt α μ) (cfg : SearchCfg μ θ) (th0 : θ)
+    (veto : ArtState Wt → X → Nat → Bool) (s : ArtState Wt) (xs : List X) :
+    fit K cfg th0 veto s xs = fit K cfg th0 veto {} xs := rfl
+
+/-- SimpleARTMAP: batching is irrelevant (weights, labels, map). -/
+theorem smap_batching_irrelevant (K : Kernel X Wt α μ) (cfg : SearchCfg μ θ) (th0 : θ)
+    (s : SMapState Wt) (batches : List (List (X × Nat))) :
+    batches.foldl (smapPartialFit K cfg th0) s = smapPartialFit K cfg th0 s batches.flatten := by
+  induction batches generalizing s with
+  | nil => simp [smapPartialFit]
+  | cons b bs ih =>
+    simp only [List.foldl_cons, List.flatten_cons, ih]
+    simp [smapPartialFit, List.foldl_append]
+
+theorem smap_refit_eq_fresh (K : Kernel X Wt α μ) (cfg : SearchCfg μ θ) (th0 : θ)
+    (s : SMapState Wt) (xys : List (X × Nat)) :
+    smapFit K cfg th0 s xys = smapFit K cfg th0 {} xys := rfl
+
+section ARTMAP
+variable {XA XB WtA WtB : Type}
+
+/-- ARTMAP: two `partial_fit` batches equal one (the B-side never reads the
+A-side, and the A-side is supervised by the B-labels of its own batch). -/
+theorem artmap_two_batches (KA : Kernel XA WtA α μ) (KB : Kernel XB WtB α μ)
+    (cfgA cfgB : SearchCfg μ θ) (thA thB : θ) (st : ArtmapState WtA WtB)
+    (xs₁ xs₂ : List XA) (ys₁ ys₂ : List XB) (h₁ : xs₁.length = ys₁.length) :
+    artmapPartialFit KA KB cfgA cfgB thA thB
+      (artmapPartialFit KA KB cfgA cfgB thA thB st xs₁ ys₁) xs₂ ys₂ =
+    artmapPartialFit KA KB cfgA cfgB thA thB st (xs₁ ++ xs₂) (ys₁ ++ ys₂) := by
+  unfold artmapPartialFit
+  simp only
+  have hb := partialFit_append KB cfgB thB noVeto st.b ys₁ ys₂
+  have hl₁ := partialFit_labels_length KB cfgB thB noVeto st.b ys₁
+  -- labels only grow by appending
+  have happ : ∀ (s : ArtState WtB) (ys : List XB),
+      ∃ t, (partialFit KB cfgB thB noVeto s ys).labels = s.labels ++ t ∧ t.length = ys.length := by
+    intro s ys
+    induction ys generalizing s with
+    | nil => exact ⟨[], by simp [partialFit], rfl⟩
+    | cons y ys ih =>
+      obtain ⟨t, ht, hlen⟩ := ih (trainStep KB cfgB thB noVeto s y)
+      have hstep : ∃ c, (trainStep KB cfgB thB noVeto s y).labels = s.labels ++ [c] := by
+        obtain ⟨_, hl, _⟩ := stepFit_frame KB cfgB thB (noVeto s y) s y
+        exact ⟨(stepFit KB cfgB thB (noVeto s y) s y).2, by simp [trainStep, hl]⟩
+      obtain ⟨c, hc⟩ := hstep
+      refine ⟨c :: t, ?_, by simp [hlen]⟩
+      simp only [partialFit, List.foldl_cons] at ht ⊢
+      rw [ht, hc]; simp
+  obtain ⟨t₁, ht₁, hlen₁⟩ := happ st.b ys₁
+  obtain ⟨t₂, ht₂, hlen₂⟩ := happ (partialFit KB cfgB thB noVeto st.b ys₁) ys₂
+  rw [hb]
+  congr 1
+  rw [ht₂, ht₁]
+  simp only [List.length_append, List.drop_left', List.append_assoc]
+  have e1 : List.drop st.b.labels.length (st.b.labels ++ (t₁ ++ t₂)) = t₁ ++ t₂ := by simp
+  have e2 : List.drop (st.b.labels.length + t₁.length) (st.b.labels ++ (t₁ ++ t₂)) = t₂ := by
+    rw [← List.append_assoc]
+    have : st.b.labels.length + t₁.length = (st.b.labels ++ t₁).length := by simp
+    rw [this, List.drop_left]
+  have e3 : List.drop st.b.labels.length (st.b.labels ++ t₁) = t₁ := by simp
+  simp only [e2]
+  have hz : (xs₁ ++ xs₂).zip (t₁ ++ t₂) = xs₁.zip t₁ ++ xs₂.zip t₂ :=
+    List.zip_append (by omega)
+  rw [hz]
+  simp [smapPartialFit, List.foldl_append]
+
+end ARTMAP
+
+/-- Read-only operations are functions of the state that return no new state:
+`predict`, `get_params`, copying — by construction in the model. -/
+theorem readonly_noop (K : Kernel X Wt α μ) (s : ArtState Wt) (xs : List X) :
+    (fun st : ArtState Wt => (st, predict K st.W xs)) s = (s, predict K s.W xs) := rfl
 
 end Art.C06
